@@ -26,6 +26,9 @@ var longLines bool
 
 const longLineKey = "obj:line-over-64KiB"
 
+// texts up to this many bytes are also given to Coq as bytes (CText / CTok cases)
+const textLimit = 2500
+
 // ---------- replayable descriptions ----------
 type matDesc struct {
 	Count int     `json:"count"`
@@ -299,6 +302,12 @@ func writeCase(d writeDesc) hx.Case {
 		mtl = "(Some " + coqName(strings.Fields(d.Mtl)) + ")"
 	}
 	c.Coq = fmt.Sprintf("CWrite %s\n   %s\n   %s\n   %s", mtl, coqMeshes(cms), il, ir)
+	if woc.Class == "ok" && len(text) <= textLimit {
+		if ls, err := tokenise(text); err == nil {
+			// the text WriteMeshes printed, as bytes: Coq's text layer must find the statements the tokenizer found
+			c.Coq = fmt.Sprintf("CTok %s\n   %s\n   %s\n   (%s)", coqBytes(text), coqFloatTab(), coqLines(ls), c.Coq)
+		}
+	}
 	c.Nontriv = ntri >= 1 && woc.Class == "ok"
 	kb, _ := json.Marshal(d)
 	c.Key = "w|" + string(kb)
@@ -312,6 +321,7 @@ func fileCase(d fileDesc) (hx.Case, bool) {
 	if err != nil {
 		return c, false // outside the line-record model (not produced by the generator)
 	}
+	tabOfInput := coqFloatTab()
 	gs1, libs1, oc1 := runRead(d.Text)
 	r1, fail := readCoq(gs1, libs1, oc1)
 	il, r2 := "Crash", "Crash"
@@ -345,6 +355,11 @@ func fileCase(d fileDesc) (hx.Case, bool) {
 		}
 	}
 	c.Coq = fmt.Sprintf("CFile %s\n   %s\n   %s\n   %s", coqLines(ls), r1, il, r2)
+	if len(d.Text) <= textLimit {
+		// the raw bytes go to Coq: Formats/ObjText.v must find the same statements as the tokenizer above, and the
+		// property is judged on the statements Coq found
+		c.Coq = fmt.Sprintf("CText %s\n   %s\n   (%s)", coqBytes(d.Text), tabOfInput, c.Coq)
+	}
 	c.Nontriv = nf >= 1 && oc1.Class == "ok"
 	c.Key = "f|" + d.Text
 	return c, true
